@@ -263,6 +263,8 @@ def check_C12(tier, seed):
     # a client that only acknowledges: the acknowledgement timers of the three spaces interleaved
     scripts += [scen.ackdelay_script(r, len(scripts) + i, fate_vec=v) for i, v in enumerate(sample(vecs, 100 if quick else 1000, r))]
     scripts += [scen.ackdelay_script(r, len(scripts) + i) for i in range(300 if quick else 3000)]
+    # lossy handshakes (the C02 family): probe timeouts of the Initial and Handshake spaces, Retry, 0-RTT
+    scripts += [scen.progress_script(r, len(scripts) + i, fate_vec=v) for i, v in enumerate(sample(vecs, 150 if quick else 2000, r))]
     mcs = [("Recovery.tla", "MC_Recovery4.cfg" if quick else "MC_Recovery.cfg")]
     mcs.append(("Controllers.tla", "MC_Controllers.cfg"))
     # acknowledgement generation (what loss detection feeds on): extension of the recovery specification
@@ -273,7 +275,9 @@ def check_C12(tier, seed):
     ccv, cccov = cc_stage(tier, seed, r)
     res = generic("C12", tier, seed, mcs, scripts,
                    [("recovery", "RecoveryTrace.tla", "RecoveryTrace.cfg"), ("acks", "AckTrace.tla", "AckTrace.cfg"),
-                    ("ecn", "EcnTrace.tla", "EcnTrace.cfg")],
+                    ("ecn", "EcnTrace.tla", "EcnTrace.cfg"),
+                    # loss detection (RFC 9002 5-6: RTT estimator, loss thresholds, probe timeout): extension, DESIGN 0.8
+                    ("loss", "LossTrace.tla", "LossTrace.cfg")],
                    ["outstanding packets and in-flight counters are read through the verif-hooks probe before and after every call",
                     "exemptions from the gate are recognised from the independent decoder's frame list (CONNECTION_CLOSE, PATH_CHALLENGE/RESPONSE, padded PING larger than the current MTU) and from the probe's loss_probes budget",
                     "a run counts as clean when no datagram was dropped, duplicated, delayed, corrupted or injected and latency is constant"],
@@ -446,7 +450,8 @@ def replay_C05(scripts):
 def replay_C12(scripts):
     return generic("C12", "quick", 0, [], scripts, [("recovery", "RecoveryTrace.tla", "RecoveryTrace.cfg"),
                                                      ("acks", "AckTrace.tla", "AckTrace.cfg"),
-                                                     ("ecn", "EcnTrace.tla", "EcnTrace.cfg")], [], shards=1, probe=2)
+                                                     ("ecn", "EcnTrace.tla", "EcnTrace.cfg"),
+                                                     ("loss", "LossTrace.tla", "LossTrace.cfg")], [], shards=1, probe=2)
 
 
 def replay_C11(scripts):
